@@ -114,11 +114,10 @@ def ccAllNotesOff : Nat := 123
 def noteEvent (ty ch note vel : Nat) : Out := .midi ((ty ||| ch) % 256) note vel
 def ccEvent (ch fn v : Nat) : Out := .midi ((stCC ||| ch) % 256) fn v
 
-/-- `PitchBendEvent(channel, val)` after the repair of the centre value:
-    `8192 + int(val*8191)` for `val ≥ 0`, `8192 + int(val*8192)` below, masked to 7+7 bits. -/
+/-- `PitchBendEvent(channel, val)` :
+    `target := int(math.Round(16383 * ((val + 1.0) / 2.0)))`, masked to 7+7 bits. -/
 def pitchBendEvent (ch : Nat) (val : Rat) : Out :=
-  let target : Int :=
-    if val < 0 then 8192 + ftrunc (fmul val 8192) else 8192 + ftrunc (fmul val 8191)
+  let target : Int := fround (fmul 16383 (fdiv (fadd val 1) 2))
   let msb := ((target / 128) % 128).toNat
   let lsb := (target % 128).toNat
   .midi ((stPB ||| ch) % 256) lsb msb
